@@ -93,7 +93,7 @@ func runC10(c *Config, r *Report) {
 	watcherPreparation(ic, r, "R10.4")
 	// R10.2
 	g := buildSGraph(ic.SP)
-	newFrame := ic.SP.Func("newFrame")
+	newFrame := ic.ssaFunc("newFrame")
 	if newFrame == nil {
 		r.Errorf("anchor not resolved: newFrame")
 		return
